@@ -34,6 +34,27 @@ CLAIMED['C05'] = dict(
     design='6/C05', technique='Lean 4 invariant + decision-table proof + differential correspondence',
     note='A failing datastore is modelled as a table that raises on every access (exception 04, nothing changes).')
 
+CLAIMED['C01'] = dict(
+    text='Kernel-checked: enc_req_conforms / enc_resp_conforms (every request/response/exception encoder = the spec PDU, all field values '
+         'and list lengths), dec_req_conforms / dec_resp_conforms (every spec-conformant PDU decodes to the message it carries), '
+         'packBits_spec + unpack_pack (LSB-first, zero padded, any length), exception layout, dispatch tables regenerated from the '
+         'source and checked by decide; three known findings proved as counterexamples (FIFO count, read-file-record response layout, '
+         'multi-word diagnostic request). File-record and device-identification PDUs are covered by the correspondence harness only.',
+    design='6/C01', technique='Lean 4 proof of codec conformance to a spec transcription + differential correspondence',
+    note='Spec/PduSpec.lean is a transcription of Modbus Application Protocol v1.1b3 section 6-7 (trusted).')
+CLAIMED['C02'] = dict(
+    text='Kernel-checked: roundtrip_req / roundtrip_resp (decode(encode m) = m up to zero padding), encode_pure_req/resp (the object after '
+         'encode() encodes identically, for every object state), reencode_decoded_*, decode_encode_fixed_point, '
+         'decode_history_independent_partial + counterexample for the one accumulating class (known finding, pinned by a test).',
+    design='6/C02', technique='Lean 4 round-trip / idempotence proofs + differential correspondence',
+    note='Object mutation by encode()/decode() is modelled by postEncReq/postEncResp/decodeIntoResp and compared with the real objects.')
+CLAIMED['C14'] = dict(
+    text='Kernel-checked: read_size_exact (prediction = 1 + encoded normal response for FC 1-4, 23, every context and quantity, via the C04 '
+         'refinement), write_size_exact, diag_size_exact (every FC 8 sub-function class), exception_size; exhaustive run over all quantities '
+         'through the real server path and through a stub-transport client for RTU/ASCII/binary/TLS/socket framings.',
+    design='6/C14', technique='Lean 4 arithmetic proof over the C04 refinement + exhaustive differential run',
+    note='Per-framing overhead is checked on the real framers by the harness (transport stub returns exactly the bytes asked).')
+
 PENDING_REASON = 'check not built yet in this revision (work in progress; planned per DESIGN.md section 6)'
 
 def main():
